@@ -1,6 +1,7 @@
 import SqfModel.Lemmas.ParseRender
 import SqfModel.Compile
 import SqfModel.Generated.Registry
+import SqfModel.GrammarTie
 /-!
 # C01 — expressions group by precedence, left-assoc, unary tightest, operands in order
 
@@ -210,5 +211,54 @@ example : sample.WP := by
     leafOfTok, unOfTok, binOfTok]
 
 example : parseToks sample.toks = some sample.erase := by rfl
+
+/-! ## The grammar of the current tree (translated from `parser.tab.cc` on every run)
+
+`translators/lalr.py` reads the LALR tables, the semantic action of every rule, the symbol names, the `astkind`
+numbering and the `yylex` classification out of the checked-in `parser.tab.cc` (the file that is compiled — `parser.y`
+is not regenerated by the build).  The statements below are evaluated by the kernel over that generated data
+(`SqfModel/GrammarTie.lean`), so they are re-established against the current source on every run. -/
+
+open Sqf.Generated.SqfGrammar Sqf.GrammarTie in
+/-- `yylex` hands a registered name to the grammar as the operator class the model's `classify` computes — for every
+combination of binary / unary / nular and every precedence.  `classify` is what the parse theorem above is about. -/
+theorem C01_yylex_class_agrees :
+    yylexClass.all (fun e => modelClass e.1 e.2.1 e.2.2.1 e.2.2.2.1 true == e.2.2.2.2) = true :=
+  yylex_class_agrees
+
+open Sqf.Generated.SqfGrammar Sqf.GrammarTie in
+/-- the class switch of `yylex` is complete: all four binary classes at all ten levels, and U, N, UN -/
+theorem C01_yylex_class_complete :
+    ([1, 2, 3, 4, 5, 6, 7, 8, 9, 10].all (fun p => [(false, false), (false, true), (true, false), (true, true)].all (fun un =>
+      yylexClass.any (fun e => e.1 == true && e.2.1 == un.1 && e.2.2.1 == un.2 && e.2.2.2.1 == p)))) = true ∧
+    ([(false, true), (true, false), (true, true)].all (fun un =>
+      yylexClass.any (fun e => e.1 == false && e.2.1 == un.1 && e.2.2.1 == un.2))) = true ∧ yylexClass.length = 43 :=
+  yylex_class_complete
+
+open Sqf.Generated.SqfGrammar Sqf.GrammarTie in
+/-- every tokenizer kind that is not looked up in the registry becomes the parser token the model gives it, and an
+unregistered name falls back to IDENT / INVALID as in the model -/
+theorem C01_yylex_tokens_agree :
+    (yylexSimple.all (fun e => match tkOfName e.1 with | some k => modelSimple k == e.2 | none => false) = true ∧
+      yylexSimple.length = 22) ∧
+    (yylexFallback = (modelClass false false false 0 true, modelClass false false false 0 false) ∧ yylexDefault = "INVALID") :=
+  ⟨yylex_simple_agrees, yylex_fallback_agrees⟩
+
+open Sqf.Generated.SqfGrammar in
+/-- the LALR tables of the current tree are the tables the hand-written parser model was validated against -/
+theorem C01_grammar_tables_canonical :
+    complete = true ∧ yypact = Canon.SqfGrammar.yypact ∧ yydefact = Canon.SqfGrammar.yydefact ∧
+    yypgoto = Canon.SqfGrammar.yypgoto ∧ yydefgoto = Canon.SqfGrammar.yydefgoto ∧ yytable = Canon.SqfGrammar.yytable ∧
+    yycheck = Canon.SqfGrammar.yycheck ∧ yyr1 = Canon.SqfGrammar.yyr1 ∧ yyr2 = Canon.SqfGrammar.yyr2 ∧
+    yypact_ninf = Canon.SqfGrammar.yypact_ninf ∧ yytable_ninf = Canon.SqfGrammar.yytable_ninf ∧
+    yylast = Canon.SqfGrammar.yylast ∧ yyfinal = Canon.SqfGrammar.yyfinal ∧ yyntokens = Canon.SqfGrammar.yyntokens :=
+  GrammarTie.sqf_tables_canonical
+
+open Sqf.Generated.SqfGrammar in
+/-- … and so are the semantic actions (operands appended left to right under the operator's token), the symbol names
+and the numbering of the node kinds -/
+theorem C01_grammar_actions_canonical :
+    acts = Canon.SqfGrammar.acts ∧ tnames = Canon.SqfGrammar.tnames ∧ kinds = Canon.SqfGrammar.kinds :=
+  ⟨GrammarTie.sqf_actions_canonical, GrammarTie.sqf_names_canonical⟩
 
 end Sqf.Props.C01
